@@ -98,6 +98,19 @@ def _stub_logger(E, obj, name):
 
 
 # ---------------------------------------------------------------- checker
+CHOSEN_FOR = C.uf("chosen_for", VAL, VAL)  # ghost: the observation a policy / planner action was chosen for
+IS_POLICY_ACTION = C.uf("is_policy_action", VAL, BOOL)  # ghost: produced by a policy / planner call (not a random sample)
+
+
+def _as_val(a):
+    from pyvc.lib.np_model import to_sort
+
+    try:
+        return to_sort(a, VAL) if isinstance(a, Sym) else None
+    except C.Unsupported:
+        return None
+
+
 class Checker:
     """States the call-site obligations of one training routine.  `kinds`
     selects which property's obligations are emitted in this run."""
@@ -124,6 +137,7 @@ class Checker:
 
     # C01 ---------------------------------------------------------------
     def act(self, E, obs, where):
+        E.st.ghost["last_act_obs"] = obs  # the observation the policy call that follows is conditioned on
         if "C01" in self.kinds:
             f = self.env(E).fields
             if isinstance(obs, Sym) and obs.z.sort() == VAL:
@@ -133,8 +147,18 @@ class Checker:
         if "C11" in self.kinds:
             pass
 
+    def note_action(self, E, a):
+        """ghost: action `a` was produced by a policy / planner call conditioned on the observation noted by act()"""
+        obs = E.st.ghost.get("last_act_obs")
+        az, oz = _as_val(a), _as_val(obs)
+        if az is not None:
+            E.st.assume(IS_POLICY_ACTION(az))
+            if oz is not None:
+                E.st.assume(CHOSEN_FOR(az) == oz)
+
     def policy_action(self, E, policy=None):
         a = E.st.fresh_sym("policy_action", VAL)
+        self.note_action(E, a)
         E.st.ghost.setdefault("in_bounds_actions", []).append(a)
         E.st.ghost.setdefault("policy_actions", []).append(a)
         return a
@@ -270,6 +294,11 @@ def same_value(v, w):
 # ------------------------------------------------------------ env hooks
 def env_hook(E, kind, **kw):
     ck = E.shared.checker
+    if kind == "space.sample":
+        az = _as_val(kw.get("action"))
+        if az is not None:
+            E.st.assume(z3.Not(IS_POLICY_ACTION(az)))  # a uniform random action is not conditioned on any observation
+        return
     if kind == "step.post":
         ck.expected_target_updates(E)
         return
@@ -284,6 +313,18 @@ def env_hook(E, kind, **kw):
         return
     if kind == "step.pre":
         env = kw["env"]
+        if "C01" in ck.kinds:
+            # "the observation the acting policy is conditioned on is that same current observation": the action that is
+            # EXECUTED now was chosen for the observation that is current now (not for one from before a reset)
+            a = kw["action"]
+            az = _as_val(a)
+            # stated for actions whose provenance is a plain symbol: the result of a policy / planner stub, a random
+            # sample, or a loop-carried variable (havocked at the loop head: then the invariant candidate
+            # "chosen for the current observation if it is a policy action" has to carry it); derived terms
+            # (int(action), clipped / converted actions) are the subject of C10 / C13
+            if az is not None and isinstance(a, Sym) and z3.is_const(a.z) and a.z.decl().kind() == z3.Z3_OP_UNINTERPRETED:
+                E.oblige("step.pre.executed_action_was_chosen_for_the_current_observation",
+                         Sym(z3.Implies(IS_POLICY_ACTION(az), CHOSEN_FOR(az) == _as_val(env.fields["$cur"]))))
         if "C11" in ck.kinds:
             E.oblige("step.pre.episode_running", C.mk(C.as_bool(env.fields["$alive"])) if not isinstance(env.fields["$alive"], bool) else env.fields["$alive"])
         if "C11" in ck.kinds and E.shared.budget is not None:
@@ -413,6 +454,8 @@ def make_cands(cfg):
         for k, v in list(L.frame.vars.items()):
             if isinstance(v, Sym) and v.z.sort() == VAL:
                 out.append((f"{k}==env.cur", C.compare("==", v, env["$cur"])))
+                # a loop-carried action: either not a policy action, or one chosen for the observation that is current
+                out.append((f"{k}:chosen_for_current_observation_if_policy_action", Sym(z3.Implies(IS_POLICY_ACTION(v.z), CHOSEN_FOR(v.z) == C.to_z3(env["$cur"])))))
             is_int = (isinstance(v, Sym) and v.z.sort() == INT) or (isinstance(v, int) and not isinstance(v, bool))
             if is_int and k in L.entry and isinstance(L.entry[k], (int, Sym)) and not isinstance(L.entry[k], bool):
                 e0 = L.entry[k]
@@ -558,6 +601,7 @@ def common_stubs():
         ck = E.shared.checker
         ck.act(E, obs, "greedy_policy")
         a = E.st.fresh_sym("greedy_action", INT)
+        ck.note_action(E, a)
         E.st.ghost.setdefault("greedy_actions", []).append((a, q_net, obs))
         return a
 
@@ -814,9 +858,41 @@ def _mrq_cands(L, executed):
     return [("epoch==epoch0+training_iterations", C.compare("==", L["epoch"], C.binop("+", L.entry["epoch"], trained)))]
 
 
+def _mrq_wiring(what, qual, online, separate):
+    """contract stub of an MR.Q update routine as called from train_mrq (C05 / C06: module wiring): the routine is
+    handed the ONLINE components it is documented to train (`online`: parameter -> path below the routine's arguments)
+    and its target parameters are objects separate from them (`separate`: pairs of parameters)"""
+    def f(E, *a, **k):
+        ck = E.shared.checker
+        ck.update(E, what)
+        if {"C05", "C06"} & ck.kinds:
+            names, _ = _sig(E, qual)
+            kw = dict(k)
+            for n, v in zip(names, a):
+                kw[n] = v
+            args = E.st.ghost["args"]
+            for par, path in online.items():
+                want = args.get(path[0])
+                for attr in path[1:]:
+                    want = want.fields.get(attr) if isinstance(want, Obj) else None
+                ok = want is not None and kw.get(par) is want
+                (E.st.ok if ok else (lambda nm: E.st.fail(nm, f"{what}: parameter {par!r} is {_nm(kw.get(par))}, the online component is {'.'.join(path)}")))(
+                    f"wiring.{what}.trains_the_online_component[{par}]")
+            for x, y in separate:
+                ok = kw.get(x) is not None and kw.get(x) is not kw.get(y)
+                (E.st.ok if ok else (lambda nm: E.st.fail(nm, f"{what}: {x} and {y} are the same object")))(f"wiring.{what}.target_is_a_separate_object[{y}]")
+        return Anything(what)
+    return f
+
+
 reg(Cfg("mrq", "train_mrq", False, warmup=_w_ge("learning_starts"), cadence=cad_mrq(), cands_extra=_mrq_cands,
-        stubs={"rl_blox.blox.embedding.model_based_encoder.update_model_based_encoder": _upd("encoder"),
-               ALG + "mrq.update_critic_and_policy": _upd("critic-and-policy")}))
+        stubs={"rl_blox.blox.embedding.model_based_encoder.update_model_based_encoder":
+               _mrq_wiring("encoder", "rl_blox.blox.embedding.model_based_encoder.update_model_based_encoder",
+                           {"encoder": ("policy_with_encoder", "encoder")}, [("encoder", "encoder_target")]),
+               ALG + "mrq.update_critic_and_policy":
+               _mrq_wiring("critic-and-policy", ALG + "mrq.update_critic_and_policy",
+                           {"q": ("q",), "policy": ("policy_with_encoder", "policy"), "encoder": ("policy_with_encoder", "encoder")},
+                           [("q", "q_target"), ("encoder", "encoder_target")])}))
 
 
 def _mpc_action(E, config, state, optimize_fn, obs):
@@ -840,7 +916,7 @@ reg(Cfg("pets", "train_pets", False, counter=None, ret=None, episodes=False, war
 def td7_tasks(kinds):
     out = []
     if kinds == {"C05"}:
-        return [loop_task(TD7, kinds, "wiring", {})]
+        return [loop_task(TD7, kinds, "wiring", {}), loop_task(CONFIGS["train_mrq"], kinds, "wiring", {})]
     if "C06" in kinds or "C15" in kinds:
         out.append(loop_task(TD7, kinds, "use_checkpoints", {"use_checkpoints": True}))
         out.append(loop_task(TD7, kinds, "use_checkpoints,episode-limit", {"use_checkpoints": True, "total_episodes": lambda E: E.int("total_episodes", 1)}))
